@@ -4,6 +4,8 @@
    pinned-tree definitions (`run_pinned`) are refuted by concrete witnesses. *)
 From XMT Require Import Base.Prelude Base.BitLemmas Model.Codec Model.Decoders.
 From Coq Require Import ZifyBool.
+From Coq Require String.
+Import String.StringSyntax.
 Ltac Zify.zify_post_hook ::= Z.div_mod_to_equations.
 
 (* ===================================================================================
@@ -1422,3 +1424,182 @@ Proof.
   - rewrite (abind_err _ _ _ Ep). cbn. unfold anofuel in Hp. rewrite Ep in Hp. intros E. apply Hp. inversion E; reflexivity.
   - exfalso. apply P1. exact Ep.
 Qed.
+
+(* ===================================================================================
+   11. Session.JSON: the text is one JSON value followed by nothing, whatever the leaves are,
+       as long as they keep their contracts (escape.JSON returns a string literal; identifiers,
+       times and addresses need no escaping; util.Uitoa returns a number)
+   =================================================================================== *)
+(* `jvalk inp r`: inp is ONE JSON value followed by r (byte-level grammar of RFC 8259 restricted
+   to what the code emits: objects, arrays, strings, unsigned integers, true/false, one optional
+   space after a colon) *)
+Inductive jvalk : list Z -> list Z -> Prop :=
+| JStrK s r : is_jstr s = true -> jvalk (s ++ r) r
+| JQuoteK x r : is_plain x = true -> jvalk (Q ++ x ++ Q ++ r) r
+| JNumK s r : is_jnum s = true -> jvalk (s ++ r) r
+| JBoolK b r : jvalk (jbool b ++ r) r
+| JSpK inp r : jvalk inp r -> jvalk (lit " " ++ inp) r
+| JObjEmptyK r : jvalk (lit "{" ++ lit "}" ++ r) r
+| JObjK k inp inp' r : is_jstr k = true -> jvalk inp inp' -> jtailk inp' r -> jvalk (lit "{" ++ k ++ CL ++ inp) r
+| JArrEmptyK r : jvalk (lit "[" ++ lit "]" ++ r) r
+| JArrK inp inp' r : jvalk inp inp' -> jatailk inp' r -> jvalk (lit "[" ++ inp) r
+with jtailk : list Z -> list Z -> Prop :=        (* (, member)* } *)
+| TEndK r : jtailk (lit "}" ++ r) r
+| TMoreK k inp inp' r : is_jstr k = true -> jvalk inp inp' -> jtailk inp' r -> jtailk (CM ++ k ++ CL ++ inp) r
+with jatailk : list Z -> list Z -> Prop :=       (* (, value)* ] *)
+| AEndK r : jatailk (lit "]" ++ r) r
+| AMoreK inp inp' r : jvalk inp inp' -> jatailk inp' r -> jatailk (CM ++ inp) r.
+
+Definition json_wf (text : list Z) : Prop := jvalk text [].
+
+Lemma ips_tail l : forall k r, forallb is_plain l = true -> jatailk k r -> jatailk (ips_loop false l ++ k) r.
+Proof.
+  induction l as [|x l IH]; intros k r Hl Hk; cbn [ips_loop].
+  - exact Hk.
+  - cbn [forallb] in Hl. apply andb_prop in Hl. destruct Hl as [Hx Hl].
+    repeat rewrite <- app_assoc. eapply AMoreK; [apply JQuoteK; exact Hx|]. apply IH; assumption.
+Qed.
+
+Lemma ips_array l r : forallb is_plain l = true -> jvalk (lit "[" ++ ips_loop true l ++ lit "]" ++ r) r.
+Proof.
+  intros Hl. destruct l as [|x l]; cbn [ips_loop].
+  - apply JArrEmptyK.
+  - cbn [forallb] in Hl. apply andb_prop in Hl. destruct Hl as [Hx Hl].
+    repeat rewrite <- app_assoc. eapply JArrK; [apply JQuoteK; exact Hx|]. apply ips_tail; [exact Hl | apply AEndK].
+Qed.
+
+Lemma netdev_val d k : netdev_okb d = true -> jvalk (netdev_json d k) k.
+Proof.
+  unfold netdev_okb, netdev_json. intros H. apply andb_prop in H. destruct H as [H Hi]. apply andb_prop in H. destruct H as [Hn Hm].
+  eapply JObjK; [reflexivity | apply JStrK; exact Hn |].
+  eapply TMoreK; [reflexivity | apply JQuoteK; exact Hm |].
+  eapply TMoreK; [reflexivity | apply ips_array; exact Hi |]. apply TEndK.
+Qed.
+
+Lemma net_tail l : forall k r, forallb netdev_okb l = true -> jatailk k r -> jatailk (net_loop false l ++ k) r.
+Proof.
+  induction l as [|d l IH]; intros k r Hl Hk; cbn [net_loop].
+  - exact Hk.
+  - cbn [forallb] in Hl. apply andb_prop in Hl. destruct Hl as [Hd Hl].
+    unfold netdev_json. repeat rewrite <- app_assoc.
+    eapply AMoreK; [apply (netdev_val d _ Hd)|]. apply IH; assumption.
+Qed.
+
+Lemma net_array l r : forallb netdev_okb l = true -> jvalk (lit "[" ++ net_loop true l ++ lit "]" ++ r) r.
+Proof.
+  intros Hl. destruct l as [|d l]; cbn [net_loop].
+  - apply JArrEmptyK.
+  - cbn [forallb] in Hl. apply andb_prop in Hl. destruct Hl as [Hd Hl].
+    unfold netdev_json. repeat rewrite <- app_assoc.
+    eapply JArrK; [apply (netdev_val d _ Hd)|]. apply net_tail; [exact Hl | apply AEndK].
+Qed.
+
+Definition proxy_okb (p : list Z * list Z) : bool := is_jstr (fst p) && is_jstr (snd p).
+
+Lemma proxy_val p k : proxy_okb p = true -> jvalk (proxy_json p k) k.
+Proof.
+  unfold proxy_okb, proxy_json. intros H. apply andb_prop in H. destruct H as [Hn Hb].
+  eapply JObjK; [reflexivity | apply JStrK; exact Hn |].
+  eapply TMoreK; [reflexivity | apply JSpK; apply JStrK; exact Hb |]. apply TEndK.
+Qed.
+
+Lemma proxy_tail l : forall k r, forallb proxy_okb l = true -> jatailk k r -> jatailk (proxy_loop false l ++ k) r.
+Proof.
+  induction l as [|p l IH]; intros k r Hl Hk; cbn [proxy_loop].
+  - exact Hk.
+  - cbn [forallb] in Hl. apply andb_prop in Hl. destruct Hl as [Hp Hl].
+    unfold proxy_json. repeat rewrite <- app_assoc.
+    eapply AMoreK; [apply (proxy_val p _ Hp)|]. apply IH; assumption.
+Qed.
+
+Lemma proxies_tail l r : forallb proxy_okb l = true -> jtailk (proxies_member l (lit "}" ++ r)) r.
+Proof.
+  intros Hl. destruct l as [|p l]; unfold proxies_member.
+  - apply TEndK.
+  - eapply TMoreK; [reflexivity | | apply TEndK].
+    cbn [proxy_loop]. cbn [forallb] in Hl. apply andb_prop in Hl. destruct Hl as [Hp Hl].
+    unfold proxy_json. repeat rewrite <- app_assoc.
+    eapply JArrK; [apply (proxy_val p _ Hp)|]. apply proxy_tail; [exact Hl | apply AEndK].
+Qed.
+
+Lemma opt_tail key o k r : is_jstr key = true -> opt_okb o = true -> jtailk k r -> jtailk (opt_member key o k) r.
+Proof.
+  intros Hk Ho Ht. destruct o as [v|]; unfold opt_member; [|exact Ht].
+  eapply TMoreK; [exact Hk | apply JStrK; exact Ho | exact Ht].
+Qed.
+
+Lemma work_val w k : work_okb w = true -> jvalk (work_json w k) k.
+Proof.
+  intros H. destruct w as [w|]; unfold work_json; [|apply JObjEmptyK].
+  unfold work_okb in H. repeat (apply andb_prop in H; destruct H as [H ?]).
+  eapply JObjK; [reflexivity | apply JNumK; eassumption |].
+  eapply TMoreK; [reflexivity | apply JNumK; eassumption |].
+  eapply TMoreK; [reflexivity | apply JNumK; eassumption |].
+  eapply TMoreK; [reflexivity | apply JNumK; eassumption |].
+  eapply TMoreK; [reflexivity | apply JQuoteK; eassumption |]. apply TEndK.
+Qed.
+
+Theorem session_json_wf f : sess_okb f = true -> json_wf (session_json f).
+Proof.
+  unfold sess_okb. intros H. repeat (apply andb_prop in H; destruct H as [H ?]).
+  unfold json_wf, session_json.
+  eapply JObjK; [reflexivity | apply JQuoteK; eassumption |].
+  eapply TMoreK; [reflexivity | apply JQuoteK; eassumption |].
+  eapply TMoreK; [reflexivity | apply JBoolK |].
+  eapply TMoreK; [reflexivity | |].
+  { (* "device": { ... } *)
+    eapply JObjK; [reflexivity | apply JQuoteK; eassumption |].
+    eapply TMoreK; [reflexivity | apply JStrK; eassumption |].
+    eapply TMoreK; [reflexivity | apply JStrK; eassumption |].
+    eapply TMoreK; [reflexivity | apply JStrK; eassumption |].
+    eapply TMoreK; [reflexivity | apply JQuoteK; eassumption |].
+    eapply TMoreK; [reflexivity | apply JStrK; eassumption |].
+    eapply TMoreK; [reflexivity | apply JBoolK |].
+    eapply TMoreK; [reflexivity | apply JQuoteK; eassumption |].
+    eapply TMoreK; [reflexivity | apply JBoolK |].
+    eapply TMoreK; [reflexivity | apply JNumK; eassumption |].
+    eapply TMoreK; [reflexivity | apply JNumK; eassumption |].
+    eapply TMoreK; [reflexivity | apply net_array; eassumption |].
+    apply TEndK. }
+  eapply TMoreK; [reflexivity | apply JQuoteK; eassumption |].
+  eapply TMoreK; [reflexivity | apply JQuoteK; eassumption |].
+  eapply TMoreK; [reflexivity | apply JStrK; eassumption |].
+  eapply TMoreK; [reflexivity | apply JNumK; eassumption |].
+  eapply TMoreK; [reflexivity | apply JNumK; eassumption |].
+  eapply TMoreK; [reflexivity | apply JQuoteK; eassumption |].
+  eapply TMoreK; [reflexivity | apply work_val; eassumption |].
+  apply opt_tail; [reflexivity | eassumption |].
+  apply opt_tail; [reflexivity | eassumption |].
+  apply (proxies_tail _ []). eassumption.
+Qed.
+
+(* with escape.JSON's contract as the hypothesis: whatever the client put into the strings *)
+Section EscapeContract.
+  Variable escape : list Z -> list Z.                       (* github.com/PurpleSec/escape.JSON *)
+  Hypothesis escape_is_string : forall s, is_jstr (escape s) = true.
+
+  Definition with_client_strings (f : sess) (user host ver via : list Z) (names : list (list Z)) (proxies : list (list Z * list Z)) : sess :=
+    Build_sess (j_id f) (j_hash f) (j_channel f) (j_full f) (escape user) (escape host) (escape ver) (j_arch f) (j_os f)
+      (j_elev f) (j_caps f) (j_domain f) (j_pid f) (j_ppid f)
+      (map (fun dn => Build_netdev (escape (snd dn)) (n_mac (fst dn)) (n_ips (fst dn))) (combine (j_net f) names))
+      (j_created f) (j_last f) (escape via) (j_sleep f) (j_jitter f) (j_kill f) (j_work f) (j_cname f) (j_conn f)
+      (map (fun p => (escape (fst p), escape (snd p))) proxies).
+
+  Theorem session_json_wf_any_strings f user host ver via names proxies :
+    sess_okb f = true -> json_wf (session_json (with_client_strings f user host ver via names proxies)).
+  Proof.
+    intros H. apply session_json_wf. unfold sess_okb in *. repeat (apply andb_prop in H; destruct H as [H ?]).
+    unfold with_client_strings. cbn [j_id j_hash j_channel j_full j_user j_host j_ver j_arch j_os j_elev j_caps j_domain j_pid j_ppid
+      j_net j_created j_last j_via j_sleep j_jitter j_kill j_work j_cname j_conn j_proxies].
+    rewrite !escape_is_string.
+    repeat (apply andb_true_intro; split); try assumption; try reflexivity.
+    - (* devices: names are escaped, the rest keeps its contract *)
+      match goal with Hn : forallb netdev_okb (j_net f) = true |- _ => revert Hn end.
+      generalize (j_net f). intros l. revert names. induction l as [|d l IH]; intros names Hl; [reflexivity|].
+      destruct names as [|n names]; [reflexivity|]. cbn [combine map forallb] in *.
+      apply andb_prop in Hl. destruct Hl as [Hd Hl]. rewrite (IH names Hl).
+      unfold netdev_okb in *. cbn [n_name n_mac n_ips fst snd]. rewrite escape_is_string.
+      apply andb_prop in Hd. destruct Hd as [Hd Hi]. apply andb_prop in Hd. destruct Hd as [_ Hm]. rewrite Hm, Hi. reflexivity.
+    - induction proxies as [|p l IH]; [reflexivity|]. cbn [map forallb fst snd]. rewrite !escape_is_string, IH. reflexivity.
+  Qed.
+End EscapeContract.
